@@ -129,6 +129,8 @@ type Engine struct {
 	safeNilOn        bool
 	exploreAllPanics bool
 	handled          bool
+	sitesHit         map[string]bool
+	entered          map[string]bool
 }
 
 func (e *Engine) note(format string, a ...interface{}) {
